@@ -28,7 +28,7 @@ MODES = ["delay"] * 6 + ["delayvolume"] * 2 + ["ssa", "volume"]
 
 
 def gen_case(case_seed, cfg):
-    case = c06.gen_case(case_seed, cfg, modes=MODES, plain_delay_p=1.0, far_p=0.08)
+    case = c06.gen_case(case_seed, cfg, modes=MODES, plain_delay_p=1.0, far_p=0.08, nonuniform_p=0.0)
     r = seeds.rng(case_seed, "c10")
     if case["mode"] == "delay" and len(case["grid"]) >= 5 and r.random() < 0.3:
         # continued run: the second segment starts from the first one's final state and returned queue
